@@ -54,8 +54,8 @@ def py_parse(text: str):
         return ERROR
 
 
-def py_render(value, indent, ascii_):
-    return json.dumps(value, indent=indent, ensure_ascii=ascii_)
+def py_render(value, indent, ascii_, sort=False):
+    return json.dumps(value, indent=indent, ensure_ascii=ascii_, sort_keys=sort)
 
 
 def word(rng, lo=0, hi=4):
@@ -125,17 +125,19 @@ def gen_case(rng):
         texts.append(mutate(rng, t))
         texts.append(mutate(rng, mutate(rng, t)))
     texts += [rng.choice(["", " ", "null", "true", "false", "nul", "tru", "[", "{", "\"", "[null, true , false]", "{\"a\":}", "[\"\\"])]
-    return {"indent": indent, "ascii": ascii_, "values": [tag(v) for v in values], "texts": [cps(t) for t in texts]}
+    return {"indent": indent, "ascii": ascii_, "sort": rng.random() < 0.5, "values": [tag(v) for v in values],
+            "texts": [cps(t) for t in texts]}
 
 
 def run_python(jc):
     """What CPython's json does with the case."""
     return {"parsed": [py_parse(uncps(t)) for t in jc["texts"]],
-            "rendered": [cps(py_render(untag(v), jc["indent"], jc["ascii"])) for v in jc["values"]]}
+            "rendered": [cps(py_render(untag(v), jc["indent"], jc["ascii"], jc.get("sort", False))) for v in jc["values"]]}
 
 
 def request(jc):
-    return {"k": "json", "texts": jc["texts"], "values": jc["values"], "indent": jc["indent"], "ascii": jc["ascii"]}
+    return {"k": "json", "texts": jc["texts"], "values": jc["values"], "indent": jc["indent"], "ascii": jc["ascii"],
+            "sort": jc.get("sort", False)}
 
 
 def compare(jc, impl, resp):
@@ -149,6 +151,6 @@ def compare(jc, impl, resp):
                           "model": "error" if b == ERROR else repr(untag(b))})
     for i, (a, b) in enumerate(zip(impl["rendered"], resp["rendered"])):
         if a != b:
-            diffs.append({"step": i, "op": f"json.dumps({untag(jc['values'][i])!r}, indent={jc['indent']}, ensure_ascii={jc['ascii']})",
+            diffs.append({"step": i, "op": f"json.dumps({untag(jc['values'][i])!r}, indent={jc['indent']}, ensure_ascii={jc['ascii']}, sort_keys={jc.get('sort', False)})",
                           "implementation": uncps(a), "model": uncps(b)})
     return diffs
